@@ -563,6 +563,16 @@ func generate(r *hxlib.Run) {
 	lim2 := maxFrame(2) - headerSize(2)
 	one(hxcodec.Pkt{V: 2, Thr: huge, Cmd: 8, Seq: 8, Typ: 1, Node: 8, Body: "b:" + hxcodec.SpecGen(lim2, 5)}, "all")
 	one(hxcodec.Pkt{V: 2, Thr: huge, Cmd: 8, Seq: 9, Typ: 1, Node: 8, Body: "b:" + hxcodec.SpecGen(lim2+1, 6)}, "all")
+	// over the limit only because of the references (header + body alone would fit): must be refused without a byte
+	one(hxcodec.Pkt{V: 2, Thr: huge, Cmd: 8, Seq: 12, Typ: 1, Node: 8, Refs: []uint32{1, 2}, Body: "b:" + hxcodec.SpecGen(lim2-7, 8)}, "all")
+	one(hxcodec.Pkt{V: 2, Thr: huge, Cmd: 8, Seq: 13, Typ: 1, Node: 8, Refs: []uint32{7}, Body: "b:" + hxcodec.SpecGen(lim2, 9)}, "all")
+	{
+		refs := make([]uint32, 255)
+		for i := range refs {
+			refs[i] = uint32(i)
+		}
+		one(hxcodec.Pkt{V: 2, Thr: huge, Cmd: 8, Seq: 14, Typ: 1, Node: 8, Refs: refs, Body: "b:" + hxcodec.SpecGen(lim2-4*255+1, 10)}, "all")
+	}
 	if r.Thorough() {
 		for _, key := range []string{"", toyKey} {
 			for _, n := range []int{lim2 - 1, lim2 - 8, lim2 + 2} {
